@@ -1308,7 +1308,7 @@ def extra(tier, seed):
         out["evaluations"] += n
         cov[name] = {"wire_octets": L, "segmentations": n, "all_1_and_2_cut": len(cuts) == (L - 1) + (L - 1) * (L - 2) // 2}
     out["violations"] = list(buckets.values())
-    out["coverage"] = {"exhaustive": True, "exhaustive_segmentations": cov}
+    out["coverage"] = {"exhaustive": False, "bounded_slice_enumerated_completely": True, "exhaustive_segmentations": cov}
     return out
 
 
